@@ -186,17 +186,26 @@ string string_vprintf(const char* fmt, va_list va) {
 wstring wstring_vprintf(const wchar_t* fmt, va_list va) {
   // TODO: use open_wmemstream when it's available on mac os
   wstring result;
-  result.resize(wcslen(fmt) * 2); // silly guess
+  result.resize(wcslen(fmt) * 2 + 16); // silly guess
 
-  ssize_t written = -1;
-  while ((written < 0) || (written > static_cast<ssize_t>(result.size()))) {
+  // vswprintf doesn't say how much space it needs, so grow the buffer until
+  // the output fits. Every attempt needs its own copy of va, since formatting
+  // consumes it.
+  for (;;) {
     va_list tmp_va;
     va_copy(tmp_va, va);
-    written = vswprintf(result.data(), result.size(), fmt, va);
+    int written = vswprintf(result.data(), result.size(), fmt, tmp_va);
     va_end(tmp_va);
+    if (written >= 0) {
+      result.resize(written);
+      return result;
+    }
+    if (result.size() >= 0x10000000) {
+      // Not a space problem (e.g. an unconvertible character)
+      throw runtime_error("cannot format wide string");
+    }
+    result.resize(result.size() * 2);
   }
-  result.resize(written);
-  return result;
 }
 
 uint8_t value_for_hex_char(char x) {
